@@ -13,6 +13,7 @@ import (
 	"fmt"
 	"os"
 	"path/filepath"
+	"regexp"
 	"strings"
 
 	"verif/internal/ev"
@@ -106,6 +107,9 @@ func checkC10(tier, replay string) int {
 					cut = cmdHead(o.Commands[k])
 				}
 				key := fmt.Sprintf("%s:cut-after(%s):%s", it.typ, cut, kind)
+				if strings.Contains(kind, "Missing_peer_or_dynamic_in_crypto_map") {
+					key += ":" + c10MissingPeerSituation(o.Prefixes[k], o2.Stderr)
+				}
 				rep.Violation(key, fmt.Sprintf("resumed after %d of %d commands: %s [seed=%d edits=%v]", k+1, len(o.Prefixes), c.What, g.Seed, g.Edits), func(dir string) {
 					writeConvReplay(dir, g, o)
 					os.WriteFile(filepath.Join(dir, "prefix-state.txt"), []byte(o.Prefixes[k]), 0644)
@@ -164,4 +168,49 @@ func c10Linux(env *run.Env, rep *ev.Reporter, seed int64) {
 		}
 	}
 	_ = mlinux.State{}
+}
+
+var missingPeerRE = regexp.MustCompile(`Missing peer or dynamic in crypto map (\S+) (\d+)`)
+
+// c10MissingPeerSituation says what the abort 'Missing peer or dynamic in
+// crypto map NAME SEQ' of a resumed run refers to in the hybrid state: an
+// entry of a crypto map that the cut left without 'set peer' (the known
+// limitation), or something else.
+func c10MissingPeerSituation(state, what string) string {
+	m := missingPeerRE.FindStringSubmatch(what)
+	if m == nil {
+		return "object-not-named"
+	}
+	name, seq := m[1], m[2]
+	entry, peer, dyn := false, false, false
+	for _, l := range strings.Split(state, "\n") {
+		l = strings.TrimSpace(l)
+		if strings.HasPrefix(l, "crypto dynamic-map "+name+" ") {
+			dyn = true
+		}
+		if strings.HasPrefix(l, "crypto map "+name+" "+seq+" ") {
+			entry = true
+			if strings.Contains(l, " set peer ") || strings.Contains(l, " ipsec-isakmp dynamic ") {
+				peer = true
+			}
+		}
+	}
+	// IOS: sub-commands of the entry's block.
+	inBlock := false
+	for _, l := range strings.Split(state, "\n") {
+		if !strings.HasPrefix(l, " ") {
+			inBlock = strings.HasPrefix(l, "crypto map "+name+" "+seq+" ")
+			continue
+		}
+		if inBlock && strings.HasPrefix(strings.TrimSpace(l), "set peer ") {
+			peer = true
+		}
+	}
+	switch {
+	case dyn && !entry:
+		return "names-a-dynamic-map"
+	case entry && !peer:
+		return "entry-without-peer"
+	}
+	return "other"
 }
